@@ -6,7 +6,7 @@ from . import common, mir, sym, guards
 from .common import Finding
 
 
-def table_for(prog, A, fids, effect_pred):
+def table_for(prog, A, fids, effect_pred, write_pred=None):
     """dict fn -> sorted list of [effect, [guards...]]"""
     out = {}
     for fid in sorted(fids):
@@ -16,6 +16,11 @@ def table_for(prog, A, fids, effect_pred):
         S = A.summary(fid)
         rows = []
         for ev in S.events:
+            if ev[0] == "write" and write_pred is not None and ev[3] == fid:
+                eff = write_pred(b, S, ev)
+                if eff is not None:
+                    rows.append([eff, sorted(guards.guard_set(b, S, ev[5]))])
+                continue
             if ev[0] != "call" or ev[3] != fid:
                 continue
             eff = effect_pred(b, S, ev)
